@@ -47,6 +47,8 @@ const (
 	KPhi    = "phi"
 	KMake   = "make"
 	KSlice  = "slc"
+	KClock  = "clock"  // in a value summary: an argument-free read of the clock made by the callee
+	KStruct = "struct" // a struct value built field by field: S = field names joined by ",", A = their values
 	KLen    = "len"
 	KCap    = "cap"
 	KRet    = "ret"
@@ -465,6 +467,13 @@ func negate(x *Term) *Term {
 
 // fieldOf builds fld(x, f), pushing the projection into loads.
 func (fi *FuncInfo) fieldOf(x *Term, f string, typ types.Type, val ssa.Value) *Term {
+	if x.K == KStruct {
+		for i, n := range strings.Split(x.S, ",") {
+			if n == f && i < len(x.A) {
+				return x.A[i]
+			}
+		}
+	}
 	if x.K == KLoad {
 		addr := mk(KFA, f, nil, nil, x.A[0])
 		cls, ok := fi.classOfAddrTerm(x.A[0])
@@ -619,6 +628,14 @@ func (fi *FuncInfo) callTerm(c *ssa.Call) *Term {
 			args[i] = fi.Term(a)
 		}
 		return mk(KCall, "builtin."+b.Name()+"#"+fi.ID(c), c.Type(), c, args...)
+	}
+	// a straight-line helper of the same package that only names an expression is replaced by that expression
+	if sc := cc.StaticCallee(); sc != nil && !cc.IsInvoke() && sc != fi.Fn && sc.Pkg != nil && sc.Pkg == fi.Fn.Pkg {
+		if vs := fi.P.valueSummary(sc); vs != nil {
+			if t := fi.instantiateTerm(vs, c); t != nil {
+				return t
+			}
+		}
 	}
 	name := CalleeName(cc)
 	args := make([]*Term, 0, len(cc.Args)+1)
@@ -844,6 +861,35 @@ func (fi *FuncInfo) PathOf(v ssa.Value) (parts []*Term, ok bool) {
 
 // PathFileName returns the constant last component of a path value ("" if unknown).
 func (fi *FuncInfo) PathFileName(v ssa.Value) string {
+	// a path handed in as a parameter of an unexported helper: the name every call site passes
+	if prm, ok := v.(*ssa.Parameter); ok && !fi.pathBusy {
+		fn := fi.Fn
+		if fn.Object() != nil && !fn.Object().Exported() {
+			idx := -1
+			for i, q := range fn.Params {
+				if q == prm {
+					idx = i
+				}
+			}
+			name := ""
+			sites := fi.P.CallSites(fn)
+			for _, s := range sites {
+				call, isCall := s.(*ssa.Call)
+				if !isCall || idx < 0 || idx >= len(call.Call.Args) || call.Call.StaticCallee() != fn {
+					return ""
+				}
+				cfi := fi.P.Info(call.Parent())
+				cfi.pathBusy = true
+				n := cfi.PathFileName(call.Call.Args[idx])
+				cfi.pathBusy = false
+				if n == "" || (name != "" && n != name) {
+					return ""
+				}
+				name = n
+			}
+			return name
+		}
+	}
 	parts, _ := fi.PathOf(v)
 	if len(parts) == 0 {
 		return ""
@@ -862,7 +908,6 @@ func ConvTermKey(typ string, x *Term) string {
 
 // ContentAt returns the term of the value held by local al just before instruction at.
 func (fi *FuncInfo) ContentAt(al *ssa.Alloc, at ssa.Instruction) *Term { return fi.contentTerm(al, at) }
-
 
 // SliceTerm builds x[lo:hi] (hi == nil means the end of x), normalised.
 func SliceTerm(x, lo, hi *Term) *Term {
